@@ -114,6 +114,12 @@ Section Core.
           else ONest (unflatten store (i_combo_values i) (Leaf (Hole r0)))
       end.
 
+  (* everything after the runs: un-shuffle the results (given in run order) and arrange them.
+     Also what a reap does with the results read back from disk. *)
+  Definition finish (i : input) (rs_run : list R) : out R :=
+    let rl := match i_perm i with None => rs_run | Some p => unshuffle p rs_run end in
+    if i_split i then OSplit (map (process i) (zip_star (map comps rl))) else process i rl.
+
   (* output and call log (sequential execution; an executor permutes the log only) *)
   Definition core (i : input) : out R * list kwargs :=
     if negb (disjointb (eff_case_args i) (i_combo_args i)) then (ORejected, [])
